@@ -675,7 +675,7 @@ PROPS["C14"]["rule"] += " Actions are written with every documented code encodin
 PROPS["C11"]["rule"] += " A third part (listener) puts the HTTP service behind its own service.Listener on a loopback port, with a limit on pending requests of 0 (none), 1, 2 or 3: 2-6 clients, one location each, send 1-4 requests each over fresh connections, whose scripts sleep 0, 5 or 20 ms; the process survives, every request is answered with its own value or - only with a limit - turned away, and afterwards every location is served; non-trivial = no limit, or a request was turned away."
 PROPS["C20"]["rule"] += " The breaker part also draws limits of 15, 25 and 40 and steady arrival rates (one call every 1/3 ... 3 ticks for three intervals), and demands admission whenever fewer than `limit` admitted calls are younger than the interval plus two ticks (a window kept at tick resolution may hold a call one tick longer than the interval; two ticks of grace)."
 PROPS["C05"]["rule"] += " The Go-typed variant of a case types the values of its initial bindings as well."
-PROPS["C01"]["rule"] += " When an event is refused because of an array the index cannot sort, the locations are rebuilt from the items they hold now (nothing removed or replaced has ever been there) and must refuse the event too: a refusal may rest on the rules that are there, not on those that were."
+PROPS["C01"]["rule"] += " When an event is refused because of an array the index cannot sort, the locations are rebuilt from the items they hold now (nothing removed or replaced has ever been there) and must refuse the event too; and once rules have been removed or replaced, an event that is processed must not be refused by the rebuilt locations either: a refusal may rest on the rules that are there, not on those that were."
 _OPT_NOTE = " Patterns include optional fields (a field whose value is an optional variable, \"??o\": it need not be there, and binds the variable if it is); the reference matcher implements them, and the data instantiated from a pattern leaves such a field out half of the time."
 for _p in ("C01", "C02", "C05"):
     PROPS[_p]["rule"] += _OPT_NOTE
